@@ -836,15 +836,526 @@ Example ex_request_isolation :
   answer_of st 0%nat = Some (Some (0, 1, 0)) /\ answer_of st 1%nat = Some (Some (1, 0, 1)).
 Proof. split; vm_compute; reflexivity. Qed.
 
+(* ---- every grid of a multi-grid cache gets the extent of its own grid (no coverage, sources without extent), whatever
+   its position in the grid list; with it the extent hypothesis of tms_address_exact holds for each of its tile layers *)
+Lemma cache_tile_layers_extent_l coverage src grids g e :
+  In (g, e) (cache_tile_layers coverage src grids) -> e = cache_extent coverage src g.
+Proof.
+  unfold cache_tile_layers. intros H. apply in_map_iff in H. destruct H as (g' & Heq & _). inversion Heq. reflexivity.
+Qed.
+
+Lemma cache_tile_layers_own_bbox_l grids g e :
+  In (g, e) (cache_tile_layers None None grids) -> e = grid_bbox g.
+Proof. intros H. apply cache_tile_layers_extent_l in H. exact H. Qed.
+
+Example ex_multi_grid_cache :
+  cache_tile_layers None None [f8_grid; ex_ll_unaligned] = [(f8_grid, (0, 0, 10000, 7000)); (ex_ll_unaligned, (0, 0, 800, 400))].
+Proof. reflexivity. Qed.
+
+(* ---- WMTS with the standard metres per unit: no hypothesis left *)
+Lemma wmts_address_exact_std_l s srv latlong m col row r :
+  (s_mpu_n s, s_mpu_d s) = meter_per_unit latlong ->
+  client_rect s srv (AWmts m col row) = Some r ->
+  exists c, served s srv (AWmts m col row) = Some c /\ tile_bbox_c (sg s) c = r.
+Proof.
+  intros H. apply wmts_address_exact_l; destruct latlong; cbn in H; inversion H; lia.
+Qed.
+
 (* ---- content of the served tile (composition with the meta tile model of C04, imported read-only) *)
-From MP Require Import MetaGrid MetaGrid_proofs.
+From Coq Require Import FinFun.
+From MP Require Import Base MetaGrid.
+(* The lemmas of C04's MetaGrid_proofs.v that served_content_exact_l needs (well-formedness, pattern of a meta tile,
+   TileSplitter, meta_equals_single_lemma), copied verbatim on 2026-10-02 into a module of this file so that the C02 build
+   depends on the meta tile MODEL MetaGrid.v only and not on the state of C04's proof file. *)
+Module MetaLemmas.
+
+(* well-formed meta grid: what the configuration loader guarantees *)
+Definition mwf (m : mgrid) : Prop := wf (mg_grid m) /\ 1 <= msx m /\ 1 <= msy m /\ 0 <= mbuf m.
+
+Lemma grid_size_pos g l : 1 <= fst (grid_size g l) /\ 1 <= snd (grid_size g l).
+Proof. unfold grid_size, axis_tiles. cbn [fst snd]. lia. Qed.
+
+Lemma meta_size_pos m l : mwf m -> 1 <= fst (meta_size m l) /\ 1 <= snd (meta_size m l).
+Proof.
+  intros (_ & Hx & Hy & _). unfold meta_size. pose proof (grid_size_pos (mg_grid m) l) as [H1 H2].
+  destruct (grid_size (mg_grid m) l) as [nx ny]. cbn [fst snd] in *. lia.
+Qed.
+
+Lemma meta_size_le_grid m l :
+  fst (meta_size m l) <= fst (grid_size (mg_grid m) l) /\ snd (meta_size m l) <= snd (grid_size (mg_grid m) l).
+Proof. unfold meta_size. destruct (grid_size (mg_grid m) l) as [nx ny]. cbn [fst snd]. lia. Qed.
+
+(* ---------------------------------------------------------------- main tile *)
+
+Lemma main_tile_eq m x y z :
+  main_tile m x y z = (x / fst (meta_size m z) * fst (meta_size m z), y / snd (meta_size m z) * snd (meta_size m z), z).
+Proof. unfold main_tile. destruct (meta_size m z). reflexivity. Qed.
+
+(* the block of a main tile contains the tile, and the main tile is aligned to the meta size *)
+Lemma main_tile_contains m x y z :
+  mwf m ->
+  let '(x0, y0, z0) := main_tile m x y z in
+  let '(sx, sy) := meta_size m z in
+  z0 = z /\ x0 <= x < x0 + sx /\ y0 <= y < y0 + sy /\ x0 mod sx = 0 /\ y0 mod sy = 0.
+Proof.
+  intros Hm. pose proof (meta_size_pos m z Hm) as [Hx Hy]. rewrite main_tile_eq.
+  destruct (meta_size m z) as [sx sy]. cbn [fst snd] in *.
+  split; [reflexivity|]. repeat split; try nia.
+  - rewrite Z.mod_mul; lia.
+  - rewrite Z.mod_mul; lia.
+Qed.
+
+Lemma main_tile_idem m x y z :
+  mwf m -> let '(x0, y0, z0) := main_tile m x y z in main_tile m x0 y0 z0 = (x0, y0, z0).
+Proof.
+  intros Hm. pose proof (meta_size_pos m z Hm) as [Hx Hy]. rewrite main_tile_eq. rewrite main_tile_eq.
+  destruct (meta_size m z) as [sx sy]. cbn [fst snd] in *.
+  rewrite !Z.div_mul by lia. reflexivity.
+Qed.
+
+(* two tiles of a level have the same main tile iff the second lies in the block of the first's main tile *)
+Lemma main_tile_same_iff m x y x' y' z :
+  mwf m ->
+  let '(x0, y0, _) := main_tile m x y z in
+  let '(sx, sy) := meta_size m z in
+  main_tile m x' y' z = main_tile m x y z <-> (x0 <= x' < x0 + sx /\ y0 <= y' < y0 + sy).
+Proof.
+  intros Hm. pose proof (meta_size_pos m z Hm) as [Hx Hy]. rewrite !main_tile_eq.
+  destruct (meta_size m z) as [sx sy]. cbn [fst snd] in *. split.
+  - intros H. injection H as H1 H2. nia.
+  - intros [H1 H2].
+    assert (Ex : x' / sx = x / sx) by (apply div_unique_bounds; nia).
+    assert (Ey : y' / sy = y / sy) by (apply div_unique_bounds; nia).
+    rewrite Ex, Ey. reflexivity.
+Qed.
+
+Example main_tile_example :
+  let m := mkMG (mkGrid 0 0 20480 20480 256 256 [80; 40; 20; 10] false 115 100 4 1) 2 2 10 in
+  mwf m /\ main_tile m 5 3 3 = (4, 2, 3) /\ main_tile m 4 2 3 = (4, 2, 3) /\ main_tile m 3 3 3 = (2, 2, 3) /\
+  meta_size m 0 = (1, 1) /\ meta_size m 3 = (2, 2).
+Proof.
+  cbv zeta. split; [|vm_compute; repeat split; reflexivity].
+  unfold mwf, wf, pos_res. cbn. repeat split; try lia. all: intros r Hr; intuition lia.
+Qed.
+
+(* ---------------------------------------------------------------- lists of integers *)
+
+Lemma zrange_length a b : length (zrange a b) = Z.to_nat (b + 1 - a).
+Proof. unfold zrange. rewrite map_length, seq_length. reflexivity. Qed.
+
+Lemma zrange_In a b k : In k (zrange a b) <-> a <= k <= b.
+Proof.
+  unfold zrange. rewrite in_map_iff. split.
+  - intros (i & <- & Hi). apply in_seq in Hi. lia.
+  - intros H. exists (Z.to_nat (k - a)). split; [lia|]. apply in_seq. lia.
+Qed.
+
+Lemma zrange_nth a b i d : (i < length (zrange a b))%nat -> nth i (zrange a b) d = a + Z.of_nat i.
+Proof.
+  intros Hi. rewrite zrange_length in Hi. unfold zrange.
+  rewrite nth_indep with (d' := a + Z.of_nat 0) by (rewrite map_length, seq_length; exact Hi).
+  rewrite (map_nth (fun k => a + Z.of_nat k)). rewrite seq_nth by exact Hi. reflexivity.
+Qed.
+
+Lemma zrange_NoDup a b : NoDup (zrange a b).
+Proof.
+  unfold zrange. apply FinFun.Injective_map_NoDup; [|apply seq_NoDup].
+  intros i j H. lia.
+Qed.
+
+Lemma rows_from_top_In g a b k : In k (rows_from_top g a b) <-> a <= k <= b.
+Proof. unfold rows_from_top. destruct (ul g); [|rewrite <- in_rev]; apply zrange_In. Qed.
+
+Lemma rows_from_top_length g a b : length (rows_from_top g a b) = Z.to_nat (b + 1 - a).
+Proof. unfold rows_from_top. destruct (ul g); [|rewrite rev_length]; apply zrange_length. Qed.
+
+Lemma rows_from_top_nth g a b i d :
+  (i < Z.to_nat (b + 1 - a))%nat ->
+  nth i (rows_from_top g a b) d = if ul g then a + Z.of_nat i else b - Z.of_nat i.
+Proof.
+  intros Hi. unfold rows_from_top. destruct (ul g).
+  - apply zrange_nth. rewrite zrange_length. exact Hi.
+  - rewrite rev_nth by (rewrite zrange_length; exact Hi). rewrite zrange_length.
+    rewrite zrange_nth by (rewrite zrange_length; lia). lia.
+Qed.
+
+(* element j + i * n of a row-major double loop *)
+Lemma nth_rows {A B C} (f : B -> A -> C) (xs : list A) (ys : list B) i j d dx dy :
+  (j < length xs)%nat -> (i < length ys)%nat ->
+  nth (j + i * length xs) (flat_map (fun y => map (f y) xs) ys) d = f (nth i ys dy) (nth j xs dx).
+Proof.
+  revert i. induction ys as [|y ys IH]; intros i Hj Hi; [cbn in Hi; lia|].
+  cbn [flat_map]. destruct i as [|i].
+  - cbn [Nat.mul Nat.add nth]. rewrite Nat.add_0_r. rewrite app_nth1 by (rewrite map_length; exact Hj).
+    rewrite nth_indep with (d' := f y dx) by (rewrite map_length; exact Hj). apply (map_nth (f y)).
+  - rewrite app_nth2 by (rewrite map_length; lia). rewrite map_length.
+    replace (j + S i * length xs - length xs)%nat with (j + i * length xs)%nat by lia.
+    cbn [nth]. apply IH; [exact Hj|cbn in Hi; lia].
+Qed.
+
+(* ---------------------------------------------------------------- the crop pattern *)
+
+Lemma tiles_pattern_In g gsx gsy b0 b1 b2 b3 tiles p :
+  In p (tiles_pattern g (gsx, gsy) (b0, b1, b2, b3) tiles) <->
+  exists i j, 0 <= i < gsy /\ 0 <= j < gsx /\
+              p = (nth (Z.to_nat (j + i * gsx)) tiles None, (j * tw g + b0, i * th g + b3)).
+Proof.
+  unfold tiles_pattern. cbn [fst snd]. rewrite in_flat_map. split.
+  - intros (i & Hi & Hp). apply in_map_iff in Hp. destruct Hp as (j & <- & Hj).
+    apply zrange_In in Hi. apply zrange_In in Hj. exists i, j. repeat split; lia.
+  - intros (i & j & Hi & Hj & ->). exists i. split; [apply zrange_In; lia|].
+    apply in_map_iff. exists j. split; [reflexivity|apply zrange_In; lia].
+Qed.
+
+Lemma create_tile_list_nth xs ys l gs i j :
+  0 <= i < Z.of_nat (length ys) -> 0 <= j < Z.of_nat (length xs) ->
+  nth (Z.to_nat (j + i * Z.of_nat (length xs))) (create_tile_list xs ys l gs) None =
+  tile_or_none (fst gs) (snd gs) l (nth (Z.to_nat j) xs 0) (nth (Z.to_nat i) ys 0).
+Proof.
+  intros Hi Hj. unfold create_tile_list.
+  replace (Z.to_nat (j + i * Z.of_nat (length xs))) with (Z.to_nat j + Z.to_nat i * length xs)%nat by nia.
+  apply (nth_rows (fun y x => tile_or_none (fst gs) (snd gs) l x y)); lia.
+Qed.
+
+(* row i (counted from the top of the picture) of a block of sy rows starting at row index y0 *)
+Definition block_row (g : grid) (y0 sy i : Z) : Z := if ul g then y0 + i else y0 + sy - 1 - i.
+
+Lemma meta_tile_unfold m x y z x0 y0 sx sy bb bufs :
+  mwf m -> main_tile m x y z = (x0, y0, z) -> meta_size m z = (sx, sy) ->
+  buffered_bbox m (unbuffered_meta_bbox m x0 y0 z) z true = (bb, bufs) ->
+  meta_tile m x y z =
+  mkMT bb (size_from_bbox m bb z)
+       (tiles_pattern (mg_grid m) (sx, sy) bufs
+          (create_tile_list (zrange x0 (x0 + sx - 1)) (rows_from_top (mg_grid m) y0 (y0 + sy - 1)) z (grid_size (mg_grid m) z)))
+       (sx, sy).
+Proof.
+  intros Hm Hmain Hms Hb. unfold meta_tile. rewrite Hmain, Hb, Hms.
+  unfold meta_tile_list. pose proof (main_tile_idem m x y z Hm) as Hid. rewrite Hmain in Hid. rewrite Hid.
+  cbn [fst snd]. reflexivity.
+Qed.
+
+(* the pattern of a meta tile, element by element: row i from the top, column j from the left *)
+Lemma meta_tile_pattern_In m x y z x0 y0 sx sy bb b0 b1 b2 b3 p :
+  mwf m -> main_tile m x y z = (x0, y0, z) -> meta_size m z = (sx, sy) ->
+  buffered_bbox m (unbuffered_meta_bbox m x0 y0 z) z true = (bb, (b0, b1, b2, b3)) ->
+  (In p (mt_pattern (meta_tile m x y z)) <->
+   exists i j, 0 <= i < sy /\ 0 <= j < sx /\
+     p = (tile_or_none (fst (grid_size (mg_grid m) z)) (snd (grid_size (mg_grid m) z)) z (x0 + j) (block_row (mg_grid m) y0 sy i),
+          (j * tw (mg_grid m) + b0, i * th (mg_grid m) + b3))).
+Proof.
+  intros Hm Hmain Hms Hb. rewrite (meta_tile_unfold m x y z x0 y0 sx sy bb _ Hm Hmain Hms Hb). cbn [mt_pattern].
+  pose proof (meta_size_pos m z Hm) as [Hsx Hsy]. rewrite Hms in Hsx, Hsy. cbn [fst snd] in Hsx, Hsy.
+  rewrite tiles_pattern_In.
+  assert (Hlx : Z.of_nat (length (zrange x0 (x0 + sx - 1))) = sx) by (rewrite zrange_length; lia).
+  assert (Hly : Z.of_nat (length (rows_from_top (mg_grid m) y0 (y0 + sy - 1))) = sy) by (rewrite rows_from_top_length; lia).
+  assert (Hn : forall i j, 0 <= i < sy -> 0 <= j < sx ->
+    nth (Z.to_nat (j + i * sx)) (create_tile_list (zrange x0 (x0 + sx - 1)) (rows_from_top (mg_grid m) y0 (y0 + sy - 1)) z (grid_size (mg_grid m) z)) None =
+    tile_or_none (fst (grid_size (mg_grid m) z)) (snd (grid_size (mg_grid m) z)) z (x0 + j) (block_row (mg_grid m) y0 sy i)).
+  { intros i j Hi Hj. rewrite <- Hlx at 1. rewrite create_tile_list_nth by lia. f_equal.
+    - rewrite zrange_nth by (rewrite zrange_length; lia). lia.
+    - rewrite rows_from_top_nth by lia. unfold block_row. destruct (ul (mg_grid m)); lia. }
+  split; intros (i & j & Hi & Hj & ->); exists i, j; (split; [exact Hi|split; [exact Hj|]]); rewrite Hn by assumption; reflexivity.
+Qed.
+
+(* ---------------------------------------------------------------- geometry of a block of tiles *)
+
+(* closed form of the rectangle of the block of sx x sy tiles whose lowest indices are x0, y0 *)
+Definition block_bbox (g : grid) (x0 y0 sx sy z : Z) : bbox :=
+  let r := res_at g z in
+  if ul g then (gx0 g + x0 * r * tw g, gy1 g - (y0 + sy) * r * th g, gx0 g + (x0 + sx) * r * tw g, gy1 g - y0 * r * th g)
+  else (gx0 g + x0 * r * tw g, gy0 g + y0 * r * th g, gx0 g + (x0 + sx) * r * tw g, gy0 g + (y0 + sy) * r * th g).
+
+Lemma tiles_bbox_block g x0 y0 sx sy z :
+  wf g -> valid_level g z = true -> 1 <= sx -> 1 <= sy ->
+  tiles_bbox g (x0, y0, z) (x0 + sx - 1, y0 + sy - 1, z) = block_bbox g x0 y0 sx sy z.
+Proof.
+  intros Hwf Hv Hsx Hsy. pose proof (res_at_pos g z Hwf Hv) as Hr.
+  destruct Hwf as (_ & _ & Htw & Hth & _).
+  unfold tiles_bbox, block_bbox, tile_bbox, merge_bbox. set (r := res_at g z) in *.
+  assert (0 < r * tw g) by nia. assert (0 < r * th g) by nia.
+  destruct (ul g); repeat (f_equal; try nia).
+Qed.
+
+Lemma unbuffered_meta_bbox_eq m x0 y0 z sx sy :
+  mwf m -> valid_level (mg_grid m) z = true -> meta_size m z = (sx, sy) ->
+  unbuffered_meta_bbox m x0 y0 z = block_bbox (mg_grid m) x0 y0 sx sy z.
+Proof.
+  intros Hm Hv Hms. pose proof (meta_size_pos m z Hm) as [Hsx Hsy]. unfold unbuffered_meta_bbox.
+  rewrite Hms in *. cbn [fst snd] in *. apply tiles_bbox_block; try assumption. apply Hm.
+Qed.
+
+Lemma buffered_false_eq m a b c d l :
+  0 <= mbuf m ->
+  buffered_bbox m (a, b, c, d) l false =
+  ((a - mbuf m * res_at (mg_grid m) l, b - mbuf m * res_at (mg_grid m) l,
+    c + mbuf m * res_at (mg_grid m) l, d + mbuf m * res_at (mg_grid m) l), (mbuf m, mbuf m, mbuf m, mbuf m)).
+Proof.
+  intros Hb. unfold buffered_bbox. destruct (mbuf m <=? 0) eqn:E; cbn [negb].
+  - assert (mbuf m = 0) as -> by lia. repeat f_equal; lia.
+  - reflexivity.
+Qed.
+
+(* limiting the buffered bbox to the grid bbox changes nothing: no buffer is cut off at the grid border *)
+Definition no_buffer_cut (m : mgrid) (x y z : Z) : Prop :=
+  let '(x0, y0, z0) := main_tile m x y z in
+  buffered_bbox m (unbuffered_meta_bbox m x0 y0 z0) z0 true = buffered_bbox m (unbuffered_meta_bbox m x0 y0 z0) z0 false.
+
+Lemma round_half_even_exact k d : 0 < d -> round_half_even (k * d) d = k.
+Proof.
+  intros Hd. unfold round_half_even. rewrite Z.div_mul by lia. rewrite Z.mod_mul by lia.
+  destruct (2 * 0 <? d) eqn:E; [reflexivity|lia].
+Qed.
+
+Lemma tile_or_none_Some nx ny l x y c :
+  tile_or_none nx ny l x y = Some c -> c = (x, y, l) /\ 0 <= x < nx /\ 0 <= y < ny.
+Proof.
+  unfold tile_or_none. destruct ((x <? 0) || (y <? 0) || (nx <=? x) || (ny <=? y)) eqn:E; [discriminate|].
+  intros H. injection H as <-. split; [reflexivity|lia].
+Qed.
+
+Lemma tile_or_none_valid nx ny l x y :
+  0 <= x < nx -> 0 <= y < ny -> tile_or_none nx ny l x y = Some (x, y, l).
+Proof.
+  intros Hx Hy. unfold tile_or_none.
+  destruct ((x <? 0) || (y <? 0) || (nx <=? x) || (ny <=? y)) eqn:E; [lia|reflexivity].
+Qed.
+
+(* pattern_pixel_aligned: when no buffer is cut off, the image size is the extent of the meta tile divided
+   by the resolution exactly, and the crop offset of every tile is its exact pixel distance from the upper
+   left corner of the meta tile *)
+Lemma pattern_pixel_aligned_lemma m x y z :
+  mwf m -> valid_level (mg_grid m) z = true -> no_buffer_cut m x y z ->
+  let mt := meta_tile m x y z in
+  let r := res_at (mg_grid m) z in
+  let '(minx, miny, maxx, maxy) := mt_bbox mt in
+  (fst (mt_size mt) * r = maxx - minx /\ snd (mt_size mt) * r = maxy - miny) /\
+  forall cx cy cz px py, In (Some (cx, cy, cz), (px, py)) (mt_pattern mt) ->
+    let '(tx0, ty0, tx1, ty1) := tile_bbox (mg_grid m) cx cy cz in
+    px * r = tx0 - minx /\ py * r = maxy - ty1 /\ 0 <= px /\ 0 <= py /\
+    px + tw (mg_grid m) <= fst (mt_size mt) /\ py + th (mg_grid m) <= snd (mt_size mt).
+Proof.
+  intros Hm Hv Hcut. cbv zeta.
+  pose proof (main_tile_contains m x y z Hm) as Hc. unfold no_buffer_cut in Hcut.
+  destruct (main_tile m x y z) as [[x0 y0] z0] eqn:Hmain.
+  destruct (meta_size m z) as [sx sy] eqn:Hms. destruct Hc as (-> & Hc).
+  pose proof (meta_size_pos m z Hm) as [Hsx Hsy]. rewrite Hms in Hsx, Hsy. cbn [fst snd] in Hsx, Hsy.
+  rewrite (unbuffered_meta_bbox_eq m x0 y0 z sx sy Hm Hv Hms) in Hcut.
+  destruct (block_bbox (mg_grid m) x0 y0 sx sy z) as [[[ba bb_] bc] bd] eqn:Hblock.
+  assert (Hbuf : 0 <= mbuf m) by apply Hm.
+  rewrite (buffered_false_eq m ba bb_ bc bd z Hbuf) in Hcut.
+  pose proof (fun p => meta_tile_pattern_In m x y z x0 y0 sx sy _ _ _ _ _ p Hm Hmain Hms
+                (eq_trans (f_equal (fun b => buffered_bbox m b z true) (unbuffered_meta_bbox_eq m x0 y0 z sx sy Hm Hv Hms))
+                          (eq_trans (f_equal (fun b => buffered_bbox m b z true) Hblock) Hcut))) as Hpat.
+  rewrite (meta_tile_unfold m x y z x0 y0 sx sy _ _ Hm Hmain Hms
+             (eq_trans (f_equal (fun b => buffered_bbox m b z true) (unbuffered_meta_bbox_eq m x0 y0 z sx sy Hm Hv Hms))
+                       (eq_trans (f_equal (fun b => buffered_bbox m b z true) Hblock) Hcut))) in *.
+  cbn [mt_bbox mt_size mt_pattern] in *.
+  pose proof (res_at_pos (mg_grid m) z (proj1 Hm) Hv) as Hr.
+  destruct Hm as ((_ & _ & Htw & Hth & _) & _).
+  set (g := mg_grid m) in *. set (r := res_at g z) in *. set (B := mbuf m) in *.
+  unfold block_bbox in Hblock. fold r in Hblock.
+  assert (Hsize : size_from_bbox m (ba - B * r, bb_ - B * r, bc + B * r, bd + B * r) z
+                  = (sx * tw g + 2 * B, sy * th g + 2 * B)).
+  { unfold size_from_bbox. fold g. fold r.
+    destruct (ul g); injection Hblock as <- <- <- <-; f_equal.
+    all: match goal with |- round_half_even ?n ?rr = ?k => replace n with (k * rr) by nia end.
+    all: apply round_half_even_exact; exact Hr. }
+  rewrite Hsize. cbn [fst snd]. split.
+  - destruct (ul g); injection Hblock as <- <- <- <-; nia.
+  - intros cx cy cz px py Hin. apply Hpat in Hin. destruct Hin as (i & j & Hi & Hj & Heq).
+    injection Heq as Ht -> ->. symmetry in Ht. apply tile_or_none_Some in Ht. destruct Ht as (Ht & _).
+    injection Ht as -> -> ->. unfold tile_bbox, block_row. fold g. fold r.
+    destruct (ul g); injection Hblock as <- <- <- <-; nia.
+Qed.
+
+(* ---------------------------------------------------------------- cutting tiles out of the meta image *)
+
+Lemma tile_pixel_src_inside px py tw_ th_ W H j k :
+  0 <= px -> 0 <= py -> px + tw_ <= W -> py + th_ <= H -> 0 <= j < tw_ -> 0 <= k < th_ ->
+  tile_pixel_src (px, py) (tw_, th_) (W, H) j k = Some (px + j, py + k).
+Proof.
+  intros. unfold tile_pixel_src, get_tile_rect. cbn [fst snd].
+  destruct ((px <? 0) || (py <? 0) || (W <? px + tw_) || (H <? py + th_)) eqn:E; [lia|].
+  replace (px + (j - 0)) with (px + j) by lia. replace (py + (k - 0)) with (py + k) by lia.
+  destruct ((px <=? px + j) && (px + j <? px + tw_) && (py <=? py + k) && (py + k <? py + th_)) eqn:E2; [reflexivity|lia].
+Qed.
+
+Lemma div_cancel_l a b c : 0 < c -> b <> 0 -> (c * a) / (c * b) = a / b.
+Proof. intros. apply Z.div_mul_cancel_l; lia. Qed.
+
+Lemma sample_x_aligned g q r minx miny maxx maxy W H px tx0 ty0 ty1 tw_ th_ j :
+  0 < q -> 0 < W -> 0 < tw_ -> W * r = maxx - minx -> px * r = tx0 - minx ->
+  sample_x g q (minx, miny, maxx, maxy) (W, H) (px + j) = sample_x g q (tx0, ty0, tx0 + r * tw_, ty1) (tw_, th_) j.
+Proof.
+  intros Hq HW Ht HWr Hpx. unfold sample_x. cbn [fst snd]. f_equal.
+  replace ((2 * (px + j) + 1) * (maxx - minx) + 2 * W * (minx - gx0 g))
+    with (W * ((2 * (px + j) + 1) * r + 2 * (minx - gx0 g))) by nia.
+  replace (2 * W * q) with (W * (2 * q)) by lia. rewrite div_cancel_l by lia.
+  replace ((2 * j + 1) * (tx0 + r * tw_ - tx0) + 2 * tw_ * (tx0 - gx0 g))
+    with (tw_ * ((2 * (px + j) + 1) * r + 2 * (minx - gx0 g))) by nia.
+  replace (2 * tw_ * q) with (tw_ * (2 * q)) by lia. rewrite div_cancel_l by lia. reflexivity.
+Qed.
+
+Lemma sample_y_aligned g q r minx miny maxx maxy W H py tx0 tx1 ty1 tw_ th_ k :
+  0 < q -> 0 < H -> 0 < th_ -> H * r = maxy - miny -> py * r = maxy - ty1 ->
+  sample_y g q (minx, miny, maxx, maxy) (W, H) (py + k) = sample_y g q (tx0, ty1 - r * th_, tx1, ty1) (tw_, th_) k.
+Proof.
+  intros Hq HH Ht HHr Hpy. unfold sample_y. cbn [fst snd]. f_equal.
+  replace (2 * H * (maxy - gy0 g) - (2 * (py + k) + 1) * (maxy - miny))
+    with (H * (2 * (maxy - gy0 g) - (2 * (py + k) + 1) * r)) by nia.
+  replace (2 * H * q) with (H * (2 * q)) by lia. rewrite div_cancel_l by lia.
+  replace (2 * th_ * (ty1 - gy0 g) - (2 * k + 1) * (ty1 - (ty1 - r * th_)))
+    with (th_ * (2 * (maxy - gy0 g) - (2 * (py + k) + 1) * r)) by nia.
+  replace (2 * th_ * q) with (th_ * (2 * q)) by lia. rewrite div_cancel_l by lia. reflexivity.
+Qed.
+
+Lemma tile_bbox_shape g x y l :
+  let '(x0, y0, x1, y1) := tile_bbox g x y l in
+  x1 = x0 + res_at g l * tw g /\ y0 = y1 - res_at g l * th g.
+Proof. unfold tile_bbox. destruct (ul g); lia. Qed.
+
+(* the image cut out of an untruncated meta tile equals the image of the tile requested alone, pixel by pixel,
+   for the position-only picture sampled with any cell size q *)
+Lemma cut_equals_single m q x y z cx cy cz px py j k :
+  mwf m -> valid_level (mg_grid m) z = true -> 0 < q -> no_buffer_cut m x y z ->
+  In (Some (cx, cy, cz), (px, py)) (mt_pattern (meta_tile m x y z)) ->
+  0 <= j < tw (mg_grid m) -> 0 <= k < th (mg_grid m) ->
+  stored_pixel (mg_grid m) q (mt_bbox (meta_tile m x y z)) (mt_size (meta_tile m x y z)) (px, py) j k =
+  stored_pixel (mg_grid m) q (tile_bbox (mg_grid m) cx cy cz) (tw (mg_grid m), th (mg_grid m)) (0, 0) j k.
+Proof.
+  intros Hm Hv Hq Hcut Hin Hj Hk.
+  pose proof (pattern_pixel_aligned_lemma m x y z Hm Hv Hcut) as Hal. cbv zeta in Hal.
+  assert (Hcz : cz = z).
+  { pose proof (main_tile_contains m x y z Hm) as Hc.
+    destruct (main_tile m x y z) as [[x0 y0] z0] eqn:Hmain. destruct (meta_size m z) as [sx sy] eqn:Hms.
+    destruct Hc as (-> & _).
+    destruct (buffered_bbox m (unbuffered_meta_bbox m x0 y0 z) z true) as [bb [[[b0 b1] b2] b3]] eqn:Hb.
+    apply (meta_tile_pattern_In m x y z x0 y0 sx sy bb b0 b1 b2 b3 _ Hm Hmain Hms Hb) in Hin.
+    destruct Hin as (i & j' & _ & _ & Heq). injection Heq as Ht _ _. symmetry in Ht.
+    apply tile_or_none_Some in Ht. destruct Ht as (Ht & _). injection Ht as _ _ ->. reflexivity. }
+  subst cz.
+  destruct (mt_bbox (meta_tile m x y z)) as [[[minx miny] maxx] maxy].
+  destruct (mt_size (meta_tile m x y z)) as [W H]. cbn [fst snd] in Hal.
+  destruct Hal as ((HW & HH) & Hal). specialize (Hal cx cy z px py Hin).
+  pose proof (tile_bbox_shape (mg_grid m) cx cy z) as Hshape.
+  destruct (tile_bbox (mg_grid m) cx cy z) as [[[tx0 ty0] tx1] ty1].
+  destruct Hal as (Hpx & Hpy & Hpx0 & Hpy0 & HpxW & HpyH). destruct Hshape as (-> & ->).
+  pose proof (res_at_pos (mg_grid m) z (proj1 Hm) Hv) as Hr.
+  destruct Hm as ((_ & _ & Htw & Hth & _) & _).
+  unfold stored_pixel.
+  rewrite (tile_pixel_src_inside px py _ _ W H j k) by lia.
+  rewrite (tile_pixel_src_inside 0 0 _ _ (tw (mg_grid m)) (th (mg_grid m)) j k) by lia.
+  cbn [Z.add]. f_equal. f_equal.
+  - apply (sample_x_aligned (mg_grid m) q (res_at (mg_grid m) z)); lia.
+  - apply (sample_y_aligned (mg_grid m) q (res_at (mg_grid m) z)); lia.
+Qed.
+
+(* ---------------------------------------------------------------- which tiles a meta tile holds *)
+
+Lemma coord_eqb_eq a b : coord_eqb a b = true <-> a = b.
+Proof.
+  destruct a as [[a1 a2] a3], b as [[b1 b2] b3]. unfold coord_eqb. split.
+  - intros H. f_equal; [f_equal|]; lia.
+  - intros H. injection H as -> -> ->. lia.
+Qed.
+
+Lemma find_crop_In c p crop : find_crop c p = Some crop -> In (Some c, crop) p.
+Proof.
+  induction p as [|[[c'|] cr] p IH]; cbn [find_crop]; [discriminate| |].
+  - destruct (coord_eqb c c') eqn:E.
+    + intros H. injection H as <-. apply coord_eqb_eq in E. subst. left. reflexivity.
+    + intros H. right. apply IH. exact H.
+  - intros H. right. apply IH. exact H.
+Qed.
+
+Lemma find_crop_complete c p crop : In (Some c, crop) p -> exists crop', find_crop c p = Some crop'.
+Proof.
+  induction p as [|[[c'|] cr] p IH]; cbn [find_crop In]; [tauto| |].
+  - intros [H|H].
+    + injection H as -> ->. assert (coord_eqb c c = true) as -> by (apply coord_eqb_eq; reflexivity). eauto.
+    + destruct (coord_eqb c c'); eauto.
+  - intros [H|H]; [discriminate|]. eauto.
+Qed.
+
+Lemma mt_tiles_In t c : In c (mt_tiles t) <-> exists crop, In (Some c, crop) (mt_pattern t).
+Proof.
+  unfold mt_tiles. rewrite in_flat_map. split.
+  - intros ([[c'|] crop] & Hin & Hc); cbn [fst] in Hc; [|destruct Hc].
+    destruct Hc as [<-|[]]. exists crop. exact Hin.
+  - intros (crop & Hin). exists (Some c, crop). split; [exact Hin|left; reflexivity].
+Qed.
+
+(* pattern_complete: the tiles of the pattern are exactly the valid tiles of the block of the main tile *)
+Lemma pattern_complete_lemma m x y z c :
+  mwf m ->
+  let '(x0, y0, _) := main_tile m x y z in
+  let '(sx, sy) := meta_size m z in
+  let '(nx, ny) := grid_size (mg_grid m) z in
+  In c (mt_tiles (meta_tile m x y z)) <->
+  exists cx cy, c = (cx, cy, z) /\ x0 <= cx < x0 + sx /\ y0 <= cy < y0 + sy /\ 0 <= cx < nx /\ 0 <= cy < ny.
+Proof.
+  intros Hm. pose proof (main_tile_contains m x y z Hm) as Hc.
+  destruct (main_tile m x y z) as [[x0 y0] z0] eqn:Hmain. destruct (meta_size m z) as [sx sy] eqn:Hms.
+  destruct Hc as (-> & _). destruct (grid_size (mg_grid m) z) as [nx ny] eqn:Hgs.
+  destruct (buffered_bbox m (unbuffered_meta_bbox m x0 y0 z) z true) as [bb [[[b0 b1] b2] b3]] eqn:Hb.
+  assert (Hnx : fst (grid_size (mg_grid m) z) = nx) by (rewrite Hgs; reflexivity).
+  assert (Hny : snd (grid_size (mg_grid m) z) = ny) by (rewrite Hgs; reflexivity).
+  unfold grid_size in Hnx, Hny. cbn [fst snd] in Hnx, Hny.
+  rewrite mt_tiles_In. split.
+  - intros (crop & Hin).
+    apply (meta_tile_pattern_In m x y z x0 y0 sx sy bb b0 b1 b2 b3 _ Hm Hmain Hms Hb) in Hin.
+    destruct Hin as (i & j & Hi & Hj & Heq). injection Heq as Ht _. symmetry in Ht.
+    apply tile_or_none_Some in Ht. destruct Ht as (-> & Hx & Hy).
+    exists (x0 + j), (block_row (mg_grid m) y0 sy i). split; [reflexivity|].
+    unfold block_row in *. destruct (ul (mg_grid m)); lia.
+  - intros (cx & cy & -> & Hx & Hy & Hvx & Hvy).
+    set (i := if ul (mg_grid m) then cy - y0 else y0 + sy - 1 - cy).
+    exists ((cx - x0) * tw (mg_grid m) + b0, i * th (mg_grid m) + b3).
+    apply (meta_tile_pattern_In m x y z x0 y0 sx sy bb b0 b1 b2 b3 _ Hm Hmain Hms Hb).
+    exists i, (cx - x0). split; [unfold i; destruct (ul (mg_grid m)); lia|]. split; [lia|].
+    f_equal. rewrite Hgs. cbn [fst snd].
+    replace (x0 + (cx - x0)) with cx by lia.
+    replace (block_row (mg_grid m) y0 sy i) with cy by (unfold block_row, i; destruct (ul (mg_grid m)); lia).
+    symmetry. apply tile_or_none_valid; lia.
+Qed.
+
+(* a valid tile is part of its own meta tile *)
+Lemma own_tile_in_meta m cx cy z :
+  mwf m -> 0 <= cx < fst (grid_size (mg_grid m) z) -> 0 <= cy < snd (grid_size (mg_grid m) z) ->
+  In (cx, cy, z) (mt_tiles (meta_tile m cx cy z)).
+Proof.
+  intros Hm Hx Hy. pose proof (pattern_complete_lemma m cx cy z (cx, cy, z) Hm) as H.
+  pose proof (main_tile_contains m cx cy z Hm) as Hc.
+  destruct (main_tile m cx cy z) as [[x0 y0] z0]. destruct (meta_size m z) as [sx sy].
+  destruct (grid_size (mg_grid m) z) as [nx ny]. cbn [fst snd] in *.
+  apply H. exists cx, cy. split; [reflexivity|]. lia.
+Qed.
+
+(* THE property in the model: for every picture that depends on ground position only (any cell size q), the
+   image stored for a valid tile when it is cut out of its meta tile equals the image stored when the tile is
+   requested alone, at every pixel, provided no buffer is cut off at the grid border *)
+Lemma meta_equals_single_lemma m q cx cy z j k :
+  mwf m -> valid_level (mg_grid m) z = true -> 0 < q ->
+  0 <= cx < fst (grid_size (mg_grid m) z) -> 0 <= cy < snd (grid_size (mg_grid m) z) ->
+  no_buffer_cut m cx cy z ->
+  0 <= j < tw (mg_grid m) -> 0 <= k < th (mg_grid m) ->
+  model_pixel m q HowMeta (cx, cy, z) j k = model_pixel m q HowSingle (cx, cy, z) j k.
+Proof.
+  intros Hm Hv Hq Hx Hy Hcut Hj Hk. unfold model_pixel, pixel_of_metatile.
+  pose proof (own_tile_in_meta m cx cy z Hm Hx Hy) as Hown. apply mt_tiles_In in Hown.
+  destruct Hown as (crop0 & Hin0). destruct (find_crop_complete _ _ _ Hin0) as ([px py] & Hf).
+  rewrite Hf. f_equal. apply find_crop_In in Hf.
+  apply (cut_equals_single m q cx cy z cx cy z px py j k); assumption.
+Qed.
+End MetaLemmas.
+
 (* ---- content: the image stored for the tile of an address, cut out of its meta tile (MetaGrid.v: meta tile bbox,
    tile pattern, TileSplitter, a picture that depends on the ground position only), shows at every pixel the picture
    sampled over the rectangle the client computes for the address *)
 Lemma served_content_exact_l s srv a r c m q j k :
-  mg_grid m = sg s -> mwf m -> 0 < q ->
+  mg_grid m = sg s -> MetaLemmas.mwf m -> 0 < q ->
   addr_ok s srv a -> client_rect s srv a = Some r -> served s srv a = Some c ->
-  (let '(cx, cy, cz) := c in no_buffer_cut m cx cy cz) ->
+  (let '(cx, cy, cz) := c in MetaLemmas.no_buffer_cut m cx cy cz) ->
   0 <= j < tw (sg s) -> 0 <= k < th (sg s) ->
   model_pixel m q HowMeta c j k = Some (stored_pixel (sg s) q r (tw (sg s), th (sg s)) (0, 0) j k).
 Proof.
@@ -854,6 +1365,6 @@ Proof.
   destruct c as [[cx cy] cz]. cbn [tile_bbox_c] in He.
   apply limit_tile_some in Hv. destruct Hv as (_ & Hvl & Hx & Hy).
   rewrite <- Hg in *.
-  rewrite (meta_equals_single_lemma m q cx cy cz j k Hm Hvl Hq Hx Hy Hcut Hj Hk).
+  rewrite (MetaLemmas.meta_equals_single_lemma m q cx cy cz j k Hm Hvl Hq Hx Hy Hcut Hj Hk).
   unfold model_pixel. rewrite He. reflexivity.
 Qed.
